@@ -49,6 +49,8 @@ def configs(tier):
                     "reorder_heavy": i % 2 == 1,
                     "uplink_loss": i in (2, 4, 5),
                     "max_msgs": 4 if tier == "quick" else 8})
+    out.append({"spake": "stub", "ordered": True, "early_close": True,
+                "max_msgs": 3})
     return out
 
 
@@ -58,7 +60,15 @@ def run_one(seed, tape, opts):
     sim = w.sim
     ordered = opts.get("ordered", True)
     for c, peer in ((a, "B"), (b, "A")):
-        if c.lazy_messages:
+        if opts.get("early_close"):
+            # closes without waiting for the conversation: mostly an error
+            # verdict (lonely), with get_*() calls right around the close()
+            c.script += [("wait_event_or_steps",
+                          tape.pick(("welcome", "code", "key", "verifier"),
+                                    "ecw"), tape.choose(80, "ecs")),
+                         ("get", tape.pick(GETS, "ecg")),
+                         ("close",)]
+        elif c.lazy_messages:
             # never consumes messages by itself: leaves them queued at close
             c.script += [("wait_event", "verifier"),
                          ("wait_steps", tape.choose(60, "lazywait")),
@@ -108,6 +118,17 @@ def run_one(seed, tape, opts):
     w.finish()
     v = order.violation
     if not v and w.observation_order_violation:
+        who, later, earlier = w.observation_order_violation
+        if earlier == "closed":
+            v = {"key": "C18.observed_after_closed." + later,
+                 "clause": "the events occur in the order code, unverified "
+                           "key, verifier, versions and messages, with closed "
+                           "last",
+                 "detail": "%s: a get_%s() Deferred fired with its value "
+                           "after the closed notification had been "
+                           "delivered" % (who, later)}
+    if not v and w.observation_order_violation and \
+            w.observation_order_violation[2] != "closed":
         who, later, earlier = w.observation_order_violation
         v = {"key": "C18.observed_out_of_order.%s_before_%s" % (later, earlier),
              "clause": "the events occur in the order code, unverified key, "
